@@ -63,6 +63,11 @@ EDGES = {
     "variant_inline_then_name": "pub enum R§ { A { #[ts(inline)] own: M§, again: M§ }, B(M§) }",
     "same_type_twice": "pub struct R§ { pub a: D§, pub b: Option<D§>, pub c: G§<D§> }",
     "flatten_enum": "pub struct R§ { #[ts(flatten)] pub f: FE§, pub z: i32 }",
+    # several types of one shared file import different names from one and the same other (shared) file
+    "shared_importers": "pub struct R§ { pub a: UA§, pub b: UB§ }",
+    "shared_importers_rev": "pub struct R§ { pub b: UB§, pub a: UA§ }",
+    "shared_importers3": "pub struct R§ { pub c: UC§, pub a: UA§, pub b: UB§ }",
+    "shared_importers_direct": "pub struct R§ { pub a: UA§, pub l: LB§ }",
 }
 
 # What each root refers to, read off its source above the way the documentation describes dependencies:
@@ -110,9 +115,16 @@ EDGE_DEPS = {
     "variant_inline_then_name": (["M"], ["M"]),
     "same_type_twice": (["D", "G"], []),
     "flatten_enum": ([], ["FE"]),
+    "shared_importers": (["UA", "UB"], []),
+    "shared_importers_rev": (["UA", "UB"], []),
+    "shared_importers3": (["UA", "UB", "UC"], []),
+    "shared_importers_direct": (["UA", "LB"], []),
 }
 HELPER_DEPS = {"D": ([], []), "E": ([], []), "G": ([], []), "M": (["D", "E"], []), "C": (["R", "D"], []), "S1": (["D"], []),
-               "S2": (["E", "S1"], []), "FE": (["D", "E"], [])}
+               "S2": (["E", "S1"], []), "FE": (["D", "E"], []), "LA": ([], []), "LB": ([], []), "UA": (["LA"], []), "UB": (["LB"], []),
+               "UC": (["LA", "LB"], [])}
+# export_to of the helper items that have one
+HELPER_PLACES = {"S1": "pair§.ts", "S2": "pair§.ts", "LA": "leaves§.ts", "LB": "leaves§.ts", "UA": "users§.ts", "UB": "users§.ts", "UC": "users§.ts"}
 DPLACES = {"default": "", "dir": '#[ts(export_to = "sub/")]', "file": '#[ts(export_to = "custom/file§.ts")]', "nested": '#[ts(export_to = "a/b/")]',
            "escape": '#[ts(export_to = "../esc§/D§.ts")]', "dotted": '#[ts(export_to = "x.y/d.ts/")]', "same_as_root": '#[ts(export_to = "both§.ts")]',
            "same_dotdot": '#[ts(export_to = "sub§/../both§.ts")]'}
@@ -138,6 +150,11 @@ def case_unit(n, case):
         '#[derive(TS)] #[ts(export_to = "pair§.ts")] pub struct S1§ { pub d: D§ }',
         '#[derive(TS)] #[ts(export_to = "pair§.ts")] pub struct S2§ { pub e: E§, pub s: Option<Box<S1§>> }',
         '#[derive(TS)] #[ts(tag = "k")] pub enum FE§ { A { d: D§ }, B { e: E§ } }',
+        '#[derive(TS)] #[ts(export_to = "leaves§.ts")] pub struct LA§ { pub v: i32 }',
+        '#[derive(TS)] #[ts(export_to = "leaves§.ts")] pub struct LB§ { pub w: i32 }',
+        '#[derive(TS)] #[ts(export_to = "users§.ts")] pub struct UA§ { pub a: LA§ }',
+        '#[derive(TS)] #[ts(export_to = "users§.ts")] pub struct UB§ { pub b: Option<LB§> }',
+        '#[derive(TS)] #[ts(export_to = "users§.ts")] pub struct UC§ { pub a: Vec<LA§>, pub b: LB§ }',
         "#[derive(TS)] %s %s" % (rp, EDGES[case["edge"]]),
     ]
     src = " ".join(items).replace("§", g)
